@@ -44,31 +44,24 @@ Proof.
       * destruct (0 <=? e); rewrite Z.leb_le; reflexivity.
 Qed.
 
-(* provable part of float_finite_or_rejected: outside the overflow class the stored value is finite,
-   inside it the stored value is an infinity (the literal is NOT rejected) *)
-Theorem float_finite_partial : forall s f, split_float s = Some f ->
-  ~ magnitude_overflows (df_mantissa f) (df_exp10 f) -> float_model_class s = Some FFinite.
+(* float_finite_or_rejected: a float literal is stored as a finite value, or - exactly when its magnitude reaches the
+   overflow threshold of round-to-nearest-even - rejected; an infinity is never stored *)
+Theorem float_finite_or_rejected : forall s f, split_float s = Some f ->
+  (magnitude_overflows (df_mantissa f) (df_exp10 f) -> float_model_class s = None)
+  /\ (~ magnitude_overflows (df_mantissa f) (df_exp10 f) -> float_model_class s = Some FFinite).
 Proof.
-  intros s f Hs Hno. unfold float_model_class. rewrite Hs.
-  destruct (overflows_exec (df_mantissa f) (df_exp10 f)) eqn:E; [|reflexivity].
-  exfalso. apply Hno. apply overflows_exec_spec. exact E.
+  intros s f Hs. unfold float_model_class, parsed_class. rewrite Hs. rewrite <- overflows_exec_spec.
+  destruct (overflows_exec (df_mantissa f) (df_exp10 f)); split; intros H; try reflexivity; exfalso; auto; discriminate.
 Qed.
 
-Theorem float_infinite_iff : forall s f, split_float s = Some f ->
-  (float_model_class s = Some FInfinite <-> magnitude_overflows (df_mantissa f) (df_exp10 f)).
-Proof.
-  intros s f Hs. unfold float_model_class. rewrite Hs. rewrite <- overflows_exec_spec.
-  destruct (overflows_exec (df_mantissa f) (df_exp10 f)); split; congruence.
-Qed.
+Theorem float_never_infinite : forall s, float_model_class s <> Some FInfinite.
+Proof. intros s. unfold float_model_class. destruct (parsed_class s) as [[|]|]; discriminate. Qed.
 
-(* the full statement (every accepted float literal is stored as a finite value) is FALSE of the model: 1e999 *)
-Theorem float_finite_refuted : exists s, float_spelling s = true /\ float_model_class s = Some FInfinite.
-Proof. exists [49; 101; 57; 57; 57]%N. vm_compute. auto. Qed.
-
-Example float_example :     (* 1.7976931348623158e308 is finite, 1.7976931348623159e308 is not; -0.0 and 4.9e-324 are finite *)
+Example float_example :     (* 1.7976931348623158e308 is stored, 1.7976931348623159e308 and 1e999 are rejected; -0.0 and 4.9e-324 are stored *)
   float_model_class [49;46;55;57;55;54;57;51;49;51;52;56;54;50;51;49;53;56;101;51;48;56]%N = Some FFinite
-  /\ float_model_class [49;46;55;57;55;54;57;51;49;51;52;56;54;50;51;49;53;57;101;51;48;56]%N = Some FInfinite
+  /\ float_model_class [49;46;55;57;55;54;57;51;49;51;52;56;54;50;51;49;53;57;101;51;48;56]%N = None
+  /\ float_spelling [49; 101; 57; 57; 57]%N = true /\ float_model_class [49; 101; 57; 57; 57]%N = None
   /\ float_model_class [45;48;46;48]%N = Some FFinite
   /\ float_model_class [52;46;57;101;45;51;50;52]%N = Some FFinite
-  /\ float_model_class [49;101;57;57;57;57;57;57;57;57;57;57;57;57;57;57;57;57;57;57;57;57;57;57]%N = Some FInfinite.
-Proof. vm_compute. auto. Qed.
+  /\ float_model_class [49;101;57;57;57;57;57;57;57;57;57;57;57;57;57;57;57;57;57;57;57;57;57;57]%N = None.
+Proof. vm_compute. repeat split; reflexivity. Qed.
